@@ -8,20 +8,84 @@ package walk_test
 //   * the semantic walk visits a subset of what the structural walk visits;
 //   * a visitor that asks to stop at its k-th Enter receives no further notification;
 //   * a nil entry in a branch slice is reported as an error, not skipped.
+//
+// EXTENSIONS (three further input classes; the oracle of each comes from the property statement and from
+// docs/cypher_walker_semantics.md, never from the code under test):
+//
+// (1) present-but-EMPTY collections. Fixtures: parsed queries with empty map / list literals
+//     (`match (n {}) return n`, `return {}`, `return []`, ...), models built through the model API (Properties with
+//     an empty non-nil Map, Match with Pattern make([]*PatternPart,0,4), emptied expression lists, empty
+//     non-nil Kinds, ...), and, systematically, every fixture model with every slice / map valued location
+//     (found by reflection) replaced in turn by: empty cap 0, empty cap 4, nil. For each of them
+//       - Copy is reflect.DeepEqual to the original AND has the same rendering in an independent dump that
+//         distinguishes nil from empty (a copy must not turn empty into nil or vice versa);
+//       - Copy shares no pointer / backing array (also of zero-length slices with spare capacity) / map;
+//       - behavioural disjointness: every scalar of the copy is changed, every slice of the copy gets its first
+//         element replaced and one element appended, every map gets a key inserted and one overwritten: the dump
+//         of the original is unchanged; then the same is done to the original (with other values, so a shared
+//         spare-capacity slot would be overwritten): the dump of the (already changed) copy is unchanged;
+//       - the structural and the semantic walk of the copy produce the same sequence of (callback, node type,
+//         map key / string value / collection length+nil-ness) as the walk of the original;
+//       - the structural walk enters every non-nil MapLiteral, every non-nil Kinds, every *ListLiteral exactly once
+//         and one MapItem per map entry (counted by reflection).
+//
+// (2) typed-nil roots and branches. The pointer types are collected by reflection while walking the fixtures
+//     (types handed to Enter, and types of pointer valued locations of the fixtures). Documented semantics
+//     (docs/cypher_walker_semantics.md, "Nil handling is part of the contract"):
+//       - a nil traversal root (typed or untyped) => an error, and no notification;
+//       - a nil entry of a branch COLLECTION (slice element, map value) => an error ("nil branches should surface
+//         cursor negotiation errors, not successful no-op walks"); required of the structural walk always (it
+//         visits all modelled children); of the semantic walk when it visited the former occupant of that entry;
+//       - a nil pointer in an optional single-valued field of that pointer type is an absent child => skipped
+//         ("Optional nil pointer children should be skipped by the cursor constructor that owns the optional field"):
+//         no error, and the event sequence is the one of the unchanged model with that child's block (and the
+//         parent's Visit between siblings) removed;
+//       - a typed-nil pointer held in an INTERFACE typed single-valued field (Expression): the document does not
+//         decide between the two readings, so the harness accepts exactly two outcomes: an error, or a walk
+//         identical to the walk with that field absent (nil interface). Which one happened is counted per field
+//         in "typed_nil_iface_field_outcomes".
+//       - never a panic, and the visitor is never handed a nil node.
+//
+// (3) the cancellation handler contract, for walk.Cypher, walk.CypherStructural and walk.PgSQL (SQL models: the
+//     translations of the fixture queries that translate and can be walked): with `full` the event sequence of an
+//     undisturbed walk and k every position in it (every Enter, Visit and Exit callback),
+//       - SetError(nil) (the value of an error-typed helper returning nil) at EVERY position: same events as full, nil;
+//       - SetError(e) at position k: events == full[:k], the returned error Is e;
+//       - SetDone at position k: events == full[:k], nil is returned;
+//       - Consume at position k: events == full without the events strictly between position k and the Exit of the
+//         node that callback was for (exactly that node's remaining children are skipped; at an Exit nothing is), nil.
+//
+// VERIF_BOUND "1" (quick): stop/handler positions up to 40 / 96 per model, one rotating extra type per interface
+// location. "2": every position, every collected type at every interface location, SetErrorf as well.
+// VERIF_SEED only permutes the order in which the fixtures are visited. VERIF_KNOWN: "|"-separated deviation class
+// names (the bracketed prefix of a failure); inputs of such a class are counted in known_deviation_hits instead of
+// failures. Nothing is suppressed in the file.
 
 import (
+	"context"
 	"encoding/json"
+	"errors"
 	"fmt"
+	"math/rand"
+	"os"
 	"reflect"
+	"sort"
+	"strconv"
+	"strings"
 	"testing"
 
 	"github.com/specterops/dawgs/cypher/frontend"
 	"github.com/specterops/dawgs/cypher/models/cypher"
+	"github.com/specterops/dawgs/cypher/models/pgsql"
+	"github.com/specterops/dawgs/cypher/models/pgsql/translate"
 	"github.com/specterops/dawgs/cypher/models/walk"
 	"github.com/specterops/dawgs/cypher/test"
+	"github.com/specterops/dawgs/graph"
 )
 
 var syntaxNodeType = reflect.TypeOf((*cypher.SyntaxNode)(nil)).Elem()
+
+const cypherPkgPath = "github.com/specterops/dawgs/cypher/models/cypher"
 
 // reflectChildren enumerates, by reflection, every model node reachable from v (v included when it is a
 // pointer to a model struct or a model collection type).
@@ -35,7 +99,7 @@ func reflectNodes(v reflect.Value, out map[uintptr]int, shared map[uintptr]bool)
 		if v.IsNil() {
 			return
 		}
-		if v.Elem().Kind() == reflect.Struct && v.Type().PkgPath() == "" && v.Elem().Type().PkgPath() == "github.com/specterops/dawgs/cypher/models/cypher" {
+		if v.Elem().Kind() == reflect.Struct && v.Type().PkgPath() == "" && v.Elem().Type().PkgPath() == cypherPkgPath {
 			out[v.Pointer()]++
 			shared[v.Pointer()] = true
 		}
@@ -49,7 +113,8 @@ func reflectNodes(v reflect.Value, out map[uintptr]int, shared map[uintptr]bool)
 			reflectNodes(f, out, shared)
 		}
 	case reflect.Slice:
-		if !v.IsNil() && v.Len() > 0 {
+		// a backing array exists as soon as there is capacity: an empty slice with spare capacity can be aliased too
+		if !v.IsNil() && v.Cap() > 0 && v.Type().Elem().Size() > 0 {
 			shared[v.Pointer()] = true
 		}
 		for i := 0; i < v.Len(); i++ {
@@ -74,6 +139,9 @@ type recorder struct {
 	enters  int
 	after   int
 	bad     []string
+	// extension: value nodes (no pointer identity) and pointer types seen
+	maps, kinds, lists, mapItems int
+	types                        map[reflect.Type]bool
 }
 
 func ptrOf(n cypher.SyntaxNode) uintptr {
@@ -94,6 +162,21 @@ func (r *recorder) Enter(n cypher.SyntaxNode) {
 	if _, synthetic := n.(*cypher.MapItem); !synthetic {
 		if p := ptrOf(n); p != 0 && reflect.ValueOf(n).Elem().Kind() == reflect.Struct {
 			r.entered[p]++
+		}
+	}
+	switch n.(type) {
+	case cypher.MapLiteral:
+		r.maps++
+	case graph.Kinds:
+		r.kinds++
+	case *cypher.ListLiteral:
+		r.lists++
+	case *cypher.MapItem:
+		r.mapItems++
+	}
+	if r.types != nil && n != nil {
+		if t := reflect.TypeOf(n); t.Kind() == reflect.Pointer {
+			r.types[t] = true
 		}
 	}
 	if r.stopAt > 0 && r.enters == r.stopAt {
@@ -126,7 +209,1218 @@ func newRecorder(stopAt int) *recorder {
 	return &recorder{Visitor: walk.NewVisitor[cypher.SyntaxNode](), entered: map[uintptr]int{}, stopAt: stopAt}
 }
 
+// ---------------------------------------------------------------------------------------------------------------
+// extension: result bookkeeping
+
+type harness struct {
+	failures   []string
+	nfail      int
+	known      map[string]bool
+	hits       map[string]int
+	classCases map[string]int
+	cases      int
+	thorough   bool
+	stopCap    int
+	posCap     int
+	types      map[reflect.Type]bool
+	ifaceOut   map[string]int
+	// interface typed single fields in which a typed-nil pointer is treated as an absent child (not as an error)
+	ifaceSkipped map[string]int
+}
+
+func (h *harness) fail(format string, args ...any) {
+	h.nfail++
+	if len(h.failures) < 8 {
+		h.failures = append(h.failures, fmt.Sprintf(format, args...))
+	}
+}
+
+// deviate: a violation of one of the extension classes; switchable through VERIF_KNOWN.
+func (h *harness) deviate(class, format string, args ...any) {
+	if h.known[class] {
+		h.hits[class]++
+		return
+	}
+	h.fail("["+class+"] "+format, args...)
+}
+
+func (h *harness) count(class string) {
+	h.cases++
+	h.classCases[class]++
+}
+
+type fixture struct {
+	name string
+	root cypher.SyntaxNode
+}
+
+// ---------------------------------------------------------------------------------------------------------------
+// extension: event logs (generic over the node type, so the same code drives walk.PgSQL)
+
+type ev struct {
+	kind byte // 'E', 'V', 'X'
+	t    reflect.Type
+	p    uintptr
+	s    string
+}
+
+func isNilAny(n any) bool {
+	if n == nil {
+		return true
+	}
+	v := reflect.ValueOf(n)
+	switch v.Kind() {
+	case reflect.Pointer, reflect.Interface, reflect.Chan, reflect.Func:
+		return v.IsNil()
+	}
+	return false
+}
+
+func evOf(kind byte, n any, usePtr bool) ev {
+	e := ev{kind: kind}
+	if n == nil {
+		e.s = "<nil>"
+		return e
+	}
+	v := reflect.ValueOf(n)
+	e.t = v.Type()
+	switch v.Kind() {
+	case reflect.Pointer:
+		if v.IsNil() {
+			e.s = "<nil>"
+		} else if mi, ok := n.(*cypher.MapItem); ok {
+			e.s = "key=" + mi.Key // synthetic node, allocated by the cursor: no stable identity
+		} else if usePtr {
+			e.p = v.Pointer()
+		}
+	case reflect.String:
+		e.s = v.String()
+	case reflect.Slice, reflect.Map:
+		if v.IsNil() {
+			e.s = "nil"
+		} else {
+			e.s = "len=" + strconv.Itoa(v.Len())
+		}
+	}
+	return e
+}
+
+func (e ev) String() string {
+	t := "<nil>"
+	if e.t != nil {
+		t = e.t.String()
+	}
+	if e.s != "" {
+		t += "(" + e.s + ")"
+	}
+	return string(e.kind) + ":" + t
+}
+
+type evLog[N any] struct {
+	walk.Visitor[N]
+	usePtr    bool
+	events    []ev
+	actAt     int // 0 never, -1 at every position, k at the k-th callback
+	act       func(h walk.VisitorHandler)
+	nilSeen   int
+	afterDone int
+}
+
+func (r *evLog[N]) on(kind byte, n N) {
+	if r.Done() {
+		r.afterDone++
+	}
+	if isNilAny(any(n)) {
+		r.nilSeen++
+	}
+	r.events = append(r.events, evOf(kind, any(n), r.usePtr))
+	if r.act != nil && (r.actAt == -1 || r.actAt == len(r.events)) {
+		r.act(r)
+	}
+}
+
+func (r *evLog[N]) Enter(n N) { r.on('E', n) }
+func (r *evLog[N]) Visit(n N) { r.on('V', n) }
+func (r *evLog[N]) Exit(n N)  { r.on('X', n) }
+
+type walker[N any] struct {
+	name   string
+	run    func(root N, v walk.Visitor[N]) error
+	usePtr bool
+}
+
+var (
+	structuralWalker = walker[cypher.SyntaxNode]{name: "CypherStructural", run: walk.CypherStructural, usePtr: true}
+	semanticWalker   = walker[cypher.SyntaxNode]{name: "Cypher", run: walk.Cypher, usePtr: true}
+	// SQL nodes are mostly values: identity is the type (and the string value / length)
+	pgsqlWalker   = walker[pgsql.SyntaxNode]{name: "PgSQL", run: walk.PgSQL, usePtr: false}
+	cypherWalkers = []walker[cypher.SyntaxNode]{structuralWalker, semanticWalker}
+)
+
+func runLog[N any](w walker[N], root N, actAt int, act func(walk.VisitorHandler)) (l *evLog[N], err error, panicked any) {
+	l = &evLog[N]{Visitor: walk.NewVisitor[N](), usePtr: w.usePtr, actAt: actAt, act: act}
+	defer func() {
+		if r := recover(); r != nil {
+			panicked = r
+		}
+	}()
+	err = w.run(root, l)
+	return
+}
+
+func sameEvents(a, b []ev, withPtr bool) int {
+	n := len(a)
+	if len(b) < n {
+		n = len(b)
+	}
+	for i := 0; i < n; i++ {
+		x, y := a[i], b[i]
+		if !withPtr {
+			x.p, y.p = 0, 0
+		}
+		if x != y {
+			return i
+		}
+	}
+	if len(a) != len(b) {
+		return n
+	}
+	return -1
+}
+
+func describeDiff(got, want []ev, at int) string {
+	g, w := "<end>", "<end>"
+	if at < len(got) {
+		g = got[at].String()
+	}
+	if at < len(want) {
+		w = want[at].String()
+	}
+	return fmt.Sprintf("event %d is %s, expected %s (got %d events, expected %d)", at+1, g, w, len(got), len(want))
+}
+
+// ---------------------------------------------------------------------------------------------------------------
+// extension: an independent rendering of a model that distinguishes nil from empty, ignores addresses and capacity
+
+func dumpVal(b *strings.Builder, v reflect.Value, depth int) {
+	if depth > 400 {
+		b.WriteString("<deep>")
+		return
+	}
+	switch v.Kind() {
+	case reflect.Invalid:
+		b.WriteString("<invalid>")
+	case reflect.Interface:
+		if v.IsNil() {
+			b.WriteString("<nil-iface>")
+		} else {
+			b.WriteString("(" + v.Elem().Type().String() + ")")
+			dumpVal(b, v.Elem(), depth+1)
+		}
+	case reflect.Pointer:
+		if v.IsNil() {
+			b.WriteString("<nil " + v.Type().String() + ">")
+		} else {
+			b.WriteString("&")
+			dumpVal(b, v.Elem(), depth+1)
+		}
+	case reflect.Struct:
+		b.WriteString(v.Type().String() + "{")
+		for i := 0; i < v.NumField(); i++ {
+			b.WriteString(v.Type().Field(i).Name + ":")
+			dumpVal(b, v.Field(i), depth+1)
+			b.WriteString(";")
+		}
+		b.WriteString("}")
+	case reflect.Slice:
+		if v.IsNil() {
+			b.WriteString("nil" + v.Type().String())
+		} else {
+			b.WriteString(v.Type().String() + "[len " + strconv.Itoa(v.Len()) + ":")
+			for i := 0; i < v.Len(); i++ {
+				dumpVal(b, v.Index(i), depth+1)
+				b.WriteString(",")
+			}
+			b.WriteString("]")
+		}
+	case reflect.Map:
+		if v.IsNil() {
+			b.WriteString("nil" + v.Type().String())
+		} else {
+			keys := v.MapKeys()
+			sort.Slice(keys, func(i, j int) bool { return fmt.Sprint(keys[i]) < fmt.Sprint(keys[j]) })
+			b.WriteString(v.Type().String() + "{len " + strconv.Itoa(v.Len()) + ":")
+			for _, k := range keys {
+				b.WriteString(strconv.Quote(fmt.Sprint(k)) + "=")
+				dumpVal(b, v.MapIndex(k), depth+1)
+				b.WriteString(",")
+			}
+			b.WriteString("}")
+		}
+	case reflect.String:
+		b.WriteString(strconv.Quote(v.String()))
+	case reflect.Bool:
+		b.WriteString(strconv.FormatBool(v.Bool()))
+	case reflect.Int, reflect.Int8, reflect.Int16, reflect.Int32, reflect.Int64:
+		b.WriteString(strconv.FormatInt(v.Int(), 10))
+	case reflect.Uint, reflect.Uint8, reflect.Uint16, reflect.Uint32, reflect.Uint64, reflect.Uintptr:
+		b.WriteString(strconv.FormatUint(v.Uint(), 10))
+	case reflect.Float32, reflect.Float64:
+		b.WriteString(strconv.FormatFloat(v.Float(), 'g', -1, 64))
+	default:
+		b.WriteString("<" + v.Kind().String() + ">")
+	}
+}
+
+func dump(root any) string {
+	var b strings.Builder
+	dumpVal(&b, reflect.ValueOf(root), 0)
+	return b.String()
+}
+
+func firstDiff(a, b string) string {
+	n := len(a)
+	if len(b) < n {
+		n = len(b)
+	}
+	i := 0
+	for i < n && a[i] == b[i] {
+		i++
+	}
+	cut := func(s string) string {
+		lo, hi := i-50, i+50
+		if lo < 0 {
+			lo = 0
+		}
+		if hi > len(s) {
+			hi = len(s)
+		}
+		return s[lo:hi]
+	}
+	return fmt.Sprintf("...%s... versus ...%s...", cut(a), cut(b))
+}
+
+// ---------------------------------------------------------------------------------------------------------------
+// extension: locations of a model, by reflection
+
+type slot struct {
+	path    string
+	v       reflect.Value // the settable location (struct field, slice element, target of a pointer) ...
+	mapV    reflect.Value // ... or a map value: mapV[key]
+	key     reflect.Value
+	inSlice bool   // element of a slice
+	owner   string // "Struct.Field" of the field (for elements: of the field holding the collection)
+}
+
+func (s slot) typ() reflect.Type {
+	if s.mapV.IsValid() {
+		return s.mapV.Type().Elem()
+	}
+	return s.v.Type()
+}
+
+func (s slot) get() reflect.Value {
+	if s.mapV.IsValid() {
+		return s.mapV.MapIndex(s.key)
+	}
+	old := reflect.New(s.v.Type()).Elem()
+	old.Set(s.v)
+	return old
+}
+
+func (s slot) set(x reflect.Value) {
+	if s.mapV.IsValid() {
+		s.mapV.SetMapIndex(s.key, x)
+	} else {
+		s.v.Set(x)
+	}
+}
+
+func (s slot) inCollection() bool { return s.inSlice || s.mapV.IsValid() }
+
+type slots struct {
+	refs    []slot // pointer / interface valued locations
+	colls   []slot // slice / map valued locations (v possibly not settable: then only elements / entries can change)
+	scalars []slot
+	// value nodes of the model (no pointer identity), counted for the structural walk
+	maps, kinds, lists, mapEntries int
+}
+
+// opaque payloads (assumption of the property): never entered, never changed
+func opaqueField(t reflect.Type, name string) bool {
+	return t.PkgPath() == cypherPkgPath && name == "Value" && (t.Name() == "Literal" || t.Name() == "Parameter")
+}
+
+var (
+	mapLiteralType  = reflect.TypeOf(cypher.MapLiteral(nil))
+	kindsType       = reflect.TypeOf(graph.Kinds(nil))
+	listLiteralType = reflect.TypeOf(cypher.ListLiteral(nil))
+)
+
+func (c *slots) visit(v reflect.Value, path string, inSlice bool, owner string) {
+	switch v.Kind() {
+	case reflect.Interface:
+		if v.CanSet() {
+			c.refs = append(c.refs, slot{path: path, v: v, inSlice: inSlice, owner: owner})
+		}
+		if !v.IsNil() {
+			c.visit(v.Elem(), path, false, owner)
+		}
+	case reflect.Pointer:
+		if v.CanSet() {
+			c.refs = append(c.refs, slot{path: path, v: v, inSlice: inSlice, owner: owner})
+		}
+		if v.IsNil() {
+			return
+		}
+		et := v.Type().Elem()
+		switch {
+		case et.PkgPath() == cypherPkgPath:
+			if et == listLiteralType {
+				c.lists++
+			}
+			c.visit(v.Elem(), path, false, owner)
+		case et.Kind() == reflect.Int64 && et.PkgPath() == "":
+			c.visit(v.Elem(), path+"*", false, owner)
+		}
+		// anything else (interned kinds, ...) is an opaque shared value
+	case reflect.Struct:
+		t := v.Type()
+		if t.PkgPath() != cypherPkgPath {
+			return
+		}
+		for i := 0; i < v.NumField(); i++ {
+			sf := t.Field(i)
+			if sf.Name == "errors" || opaqueField(t, sf.Name) {
+				continue
+			}
+			c.visit(v.Field(i), path+"."+sf.Name, false, t.Name()+"."+sf.Name)
+		}
+	case reflect.Slice:
+		if v.Type() == kindsType && !v.IsNil() {
+			c.kinds++
+		}
+		c.colls = append(c.colls, slot{path: path, v: v, owner: owner})
+		for i := 0; i < v.Len(); i++ {
+			c.visit(v.Index(i), path+"["+strconv.Itoa(i)+"]", true, owner)
+		}
+	case reflect.Map:
+		if v.Type() == mapLiteralType && (!v.IsNil() || !v.CanSet()) {
+			// a MapLiteral held in an interface is a present node even when the map is nil
+			c.maps++
+			c.mapEntries += v.Len()
+		}
+		c.colls = append(c.colls, slot{path: path, v: v, owner: owner})
+		keys := v.MapKeys()
+		sort.Slice(keys, func(i, j int) bool { return fmt.Sprint(keys[i]) < fmt.Sprint(keys[j]) })
+		for _, k := range keys {
+			p := path + "[" + strconv.Quote(fmt.Sprint(k)) + "]"
+			c.refs = append(c.refs, slot{path: p, mapV: v, key: k, owner: owner})
+			c.visit(v.MapIndex(k), p, false, owner)
+		}
+	case reflect.String, reflect.Bool, reflect.Int, reflect.Int8, reflect.Int16, reflect.Int32, reflect.Int64,
+		reflect.Uint, reflect.Uint8, reflect.Uint16, reflect.Uint32, reflect.Uint64, reflect.Float32, reflect.Float64:
+		if v.CanSet() {
+			c.scalars = append(c.scalars, slot{path: path, v: v, owner: owner})
+		}
+	}
+}
+
+func collectSlots(root any) *slots {
+	c := &slots{}
+	c.visit(reflect.ValueOf(root), "root", false, "")
+	return c
+}
+
+// markStruct makes a fresh struct recognisable in a dump: the tag is stored in the first field that can carry it
+// (a string, or, below a pointer / interface / slice field, a fresh child that carries it)
+func markStruct(v reflect.Value, tag string, depth int) bool {
+	if depth > 6 {
+		return false
+	}
+	for i := 0; i < v.NumField(); i++ {
+		f := v.Field(i)
+		if !f.CanSet() || opaqueField(v.Type(), v.Type().Field(i).Name) {
+			continue
+		}
+		switch f.Kind() {
+		case reflect.String:
+			f.SetString(tag)
+			return true
+		case reflect.Interface:
+			if f.Type().NumMethod() == 0 {
+				f.Set(reflect.ValueOf(&cypher.Variable{Symbol: tag}))
+				return true
+			}
+		case reflect.Pointer:
+			if et := f.Type().Elem(); et.Kind() == reflect.Struct && et.PkgPath() == cypherPkgPath {
+				child := reflect.New(et)
+				if markStruct(child.Elem(), tag, depth+1) {
+					f.Set(child)
+					return true
+				}
+			}
+		case reflect.Slice:
+			if et := f.Type().Elem(); et.Kind() == reflect.Interface && et.NumMethod() == 0 {
+				f.Set(reflect.Append(f, reflect.ValueOf(&cypher.Variable{Symbol: tag})))
+				return true
+			} else if et.Kind() == reflect.Pointer && et.Elem().Kind() == reflect.Struct && et.Elem().PkgPath() == cypherPkgPath {
+				child := reflect.New(et.Elem())
+				if markStruct(child.Elem(), tag, depth+1) {
+					f.Set(reflect.Append(f, child))
+					return true
+				}
+			}
+		}
+	}
+	return false
+}
+
+// freshElem: a new value that can be stored in a collection with element type t
+func freshElem(t reflect.Type, tag string) reflect.Value {
+	switch t.Kind() {
+	case reflect.Pointer:
+		if t.Elem().PkgPath() == cypherPkgPath && t.Elem().Kind() == reflect.Struct {
+			p := reflect.New(t.Elem())
+			markStruct(p.Elem(), tag, 0)
+			return p
+		}
+	case reflect.Interface:
+		for _, cand := range []any{&cypher.Variable{Symbol: tag}, graph.StringKind(tag), errors.New(tag)} {
+			if cv := reflect.ValueOf(cand); cv.Type().AssignableTo(t) {
+				return cv
+			}
+		}
+	case reflect.String:
+		return reflect.ValueOf(tag).Convert(t)
+	}
+	return reflect.Value{}
+}
+
+// mutateAll changes everything mutable below root: every scalar and, with replace false, one appended element per
+// settable slice (into the spare capacity when there is some) and one inserted entry per map; with replace true,
+// the first element of every slice and one entry of every map are overwritten (this detaches the former
+// occupants, which is why it is a separate round). It returns the undo function.
+func mutateAll(root any, tag string, replace bool) func() {
+	c := collectSlots(root)
+	var undo []func()
+	for _, s := range c.scalars {
+		s, old := s, s.get()
+		undo = append(undo, func() { s.v.Set(old) })
+		switch s.v.Kind() {
+		case reflect.String:
+			s.v.SetString(s.v.String() + "~" + tag)
+		case reflect.Bool:
+			s.v.SetBool(!s.v.Bool())
+		case reflect.Int, reflect.Int8, reflect.Int16, reflect.Int32, reflect.Int64:
+			s.v.SetInt(s.v.Int() + int64(len(tag)))
+		case reflect.Uint, reflect.Uint8, reflect.Uint16, reflect.Uint32, reflect.Uint64:
+			s.v.SetUint(s.v.Uint() + uint64(len(tag)))
+		case reflect.Float32, reflect.Float64:
+			s.v.SetFloat(s.v.Float() + float64(len(tag)))
+		}
+	}
+	for _, s := range c.colls {
+		s := s
+		switch s.v.Kind() {
+		case reflect.Slice:
+			fresh := freshElem(s.v.Type().Elem(), tag+"/set")
+			if !fresh.IsValid() {
+				continue
+			}
+			if replace && s.v.Len() > 0 {
+				e0 := s.v.Index(0)
+				old := reflect.New(e0.Type()).Elem()
+				old.Set(e0)
+				undo = append(undo, func() { e0.Set(old) })
+				e0.Set(fresh)
+			}
+			if !replace && s.v.CanSet() {
+				old := s.get()
+				undo = append(undo, func() { s.v.Set(old) })
+				s.v.Set(reflect.Append(s.v, freshElem(s.v.Type().Elem(), tag+"/append")))
+			}
+		case reflect.Map:
+			if s.v.IsNil() {
+				continue
+			}
+			fresh := freshElem(s.v.Type().Elem(), tag+"/set")
+			if !fresh.IsValid() || s.v.Type().Key().Kind() != reflect.String {
+				continue
+			}
+			keys := s.v.MapKeys()
+			sort.Slice(keys, func(i, j int) bool { return keys[i].String() < keys[j].String() })
+			if replace {
+				if len(keys) > 0 {
+					k, old := keys[0], s.v.MapIndex(keys[0])
+					undo = append(undo, func() { s.v.SetMapIndex(k, old) })
+					s.v.SetMapIndex(k, fresh)
+				}
+				continue
+			}
+			nk := reflect.ValueOf("verif~" + tag).Convert(s.v.Type().Key())
+			undo = append(undo, func() { s.v.SetMapIndex(nk, reflect.Value{}) })
+			s.v.SetMapIndex(nk, freshElem(s.v.Type().Elem(), tag+"/insert"))
+		}
+	}
+	return func() {
+		for i := len(undo) - 1; i >= 0; i-- {
+			undo[i]()
+		}
+	}
+}
+
+func safeCopy(root cypher.SyntaxNode) (cp cypher.SyntaxNode, panicked any) {
+	defer func() {
+		if r := recover(); r != nil {
+			panicked = r
+		}
+	}()
+	return cypher.Copy(root), nil
+}
+
+// ---------------------------------------------------------------------------------------------------------------
+// class 1: the copy of a model (with present-but-empty collections) is equal including nil-vs-empty, disjoint, and
+// walks the same
+
+func (h *harness) checkCopyAndWalk(name string, root cypher.SyntaxNode, behavioural bool) {
+	h.count("empty_collections")
+	before := dump(root)
+	cp, pv := safeCopy(root)
+	if pv != nil {
+		h.deviate("copy_panic", "Copy panicked (%v) for %s", pv, name)
+		return
+	}
+	if dc := dump(cp); dc != before {
+		h.deviate("copy_nil_vs_empty", "Copy differs from the original (nil versus empty included) for %s: original %s", name, firstDiff(before, dc))
+	} else if !reflect.DeepEqual(cp, root) {
+		h.deviate("copy_nil_vs_empty", "Copy is not reflect.DeepEqual to the original for %s", name)
+	}
+	a, b := map[uintptr]int{}, map[uintptr]int{}
+	sa, sb := map[uintptr]bool{}, map[uintptr]bool{}
+	reflectNodes(reflect.ValueOf(root), a, sa)
+	reflectNodes(reflect.ValueOf(cp), b, sb)
+	for p := range sa {
+		if sb[p] {
+			h.deviate("copy_shares_mutable", "Copy shares a pointer / backing array / map with the original for %s", name)
+			break
+		}
+	}
+	// the walks of the copy and of the original agree
+	expect := collectSlots(root)
+	for _, w := range cypherWalkers {
+		lo, errO, pvO := runLog(w, root, 0, nil)
+		lc, errC, pvC := runLog(w, cp, 0, nil)
+		if pvO != nil || pvC != nil {
+			h.deviate("walk_panic", "walk.%s panicked (%v / %v) for %s", w.name, pvO, pvC, name)
+			continue
+		}
+		if (errO == nil) != (errC == nil) {
+			h.deviate("copy_walk_differs", "walk.%s returns %v for the original and %v for its copy, for %s", w.name, errO, errC, name)
+			continue
+		}
+		if errO != nil {
+			h.deviate("copy_walk_differs", "walk.%s fails with %v for %s", w.name, errO, name)
+			continue
+		}
+		if at := sameEvents(lc.events, lo.events, false); at >= 0 {
+			h.deviate("copy_walk_differs", "walk.%s of the copy differs from the walk of the original for %s: %s", w.name, name, describeDiff(lc.events, lo.events, at))
+		}
+		if w.name == structuralWalker.name {
+			var maps, kinds, lists, items int
+			for _, e := range lo.events {
+				if e.kind != 'E' {
+					continue
+				}
+				switch e.t {
+				case mapLiteralType:
+					maps++
+				case kindsType:
+					kinds++
+				case reflect.PointerTo(listLiteralType):
+					lists++
+				case reflect.TypeOf((*cypher.MapItem)(nil)):
+					items++
+				}
+			}
+			if maps != expect.maps || kinds != expect.kinds || lists != expect.lists || items != expect.mapEntries {
+				h.deviate("structural_value_nodes", "structural walk entered %d map literals, %d kind lists, %d list literals, %d map items; the model has %d, %d, %d, %d (present, possibly empty) for %s",
+					maps, kinds, lists, items, expect.maps, expect.kinds, expect.lists, expect.mapEntries, name)
+			}
+		}
+	}
+	if !behavioural {
+		return
+	}
+	// behavioural disjointness, both directions; the second change uses other values so that a slot of a shared
+	// backing array (also one beyond len, in the spare capacity) would be overwritten
+	for _, replace := range []bool{false, true} {
+		what := "scalars, append, map insert"
+		if replace {
+			what = "scalars, first element of every slice, an entry of every map"
+		}
+		mutateAll(cp, "c", replace)
+		if after := dump(root); after != before {
+			h.deviate("copy_shares_mutable", "changing the copy (%s) changed the original for %s: %s", what, name, firstDiff(before, after))
+		}
+		changedCopy := dump(cp)
+		undo := mutateAll(root, "orig", replace)
+		if after := dump(cp); after != changedCopy {
+			h.deviate("copy_shares_mutable", "changing the original (%s) changed the copy for %s: %s", what, name, firstDiff(changedCopy, after))
+		}
+		undo()
+	}
+	if after := dump(root); after != before {
+		h.fail("harness error: original not restored for %s", name)
+	}
+}
+
+// every slice / map valued location of the model replaced by: empty without capacity, empty with spare capacity, nil
+func (h *harness) emptiedVariants(f fixture) {
+	before := dump(f.root)
+	for _, s := range collectSlots(f.root).colls {
+		if !s.v.CanSet() {
+			continue
+		}
+		old := s.get()
+		var variants []reflect.Value
+		var labels []string
+		switch s.v.Kind() {
+		case reflect.Slice:
+			variants = []reflect.Value{reflect.MakeSlice(s.v.Type(), 0, 0), reflect.MakeSlice(s.v.Type(), 0, 4), reflect.Zero(s.v.Type())}
+			labels = []string{"empty cap 0", "empty cap 4", "nil"}
+		case reflect.Map:
+			variants = []reflect.Value{reflect.MakeMap(s.v.Type()), reflect.Zero(s.v.Type())}
+			labels = []string{"empty map", "nil map"}
+		}
+		for i, variant := range variants {
+			s.v.Set(variant)
+			h.checkCopyAndWalk(fmt.Sprintf("%s with %s := %s (%s)", f.name, s.path, labels[i], s.v.Type()), f.root, true)
+		}
+		s.v.Set(old)
+	}
+	if dump(f.root) != before {
+		h.fail("harness error: %s not restored after the emptied variants", f.name)
+	}
+}
+
+func emptyCollectionQueries() []string {
+	return []string{
+		"match (n {}) return n",
+		"return {}",
+		"return []",
+		"match ()-[r {}]->() return r",
+		"match (n) where n.a = {} return n",
+		"match (n {a: {}}) return n",
+		"match (n {a: []}) return n",
+		"match (n) return n.x = []",
+		"create (n {}) return n",
+		"merge (n {}) return n",
+		"match (n) set n += {} return n",
+		"match (n) set n = {} return n",
+		"with {} as m return m",
+		"unwind [] as x return x",
+		"match (n $p) return n",
+		"match (n {a: {b: {}, c: []}, d: [{}]}) return [[], {}]",
+	}
+}
+
+// models with present-but-empty (and nil) collections, built through the model API
+func builtFixtures() []fixture {
+	var out []fixture
+	add := func(name string, root cypher.SyntaxNode) {
+		out = append(out, fixture{name: "built: " + name, root: root})
+	}
+	v := func(s string) *cypher.Variable { return cypher.NewVariableWithSymbol(s) }
+
+	{
+		rq, spq := cypher.NewRegularQueryWithSingleQuery()
+		props := cypher.NewProperties()
+		props.Map = cypher.NewMapLiteral()
+		spq.NewMatch(false).NewPatternPart().AddPatternElements(&cypher.NodePattern{Variable: v("n"), Kinds: graph.Kinds{}, Properties: props})
+		spq.NewProjection(false).AddItem(cypher.NewProjectionItemWithExpr(v("n")))
+		add("match (n {}) with Properties{Map: empty non-nil}, Kinds empty non-nil", rq)
+	}
+	{
+		rq, spq := cypher.NewRegularQueryWithSingleQuery()
+		relProps := cypher.NewProperties()
+		relProps.Map = cypher.MapLiteral{}
+		spq.NewMatch(false).NewPatternPart().AddPatternElements(
+			&cypher.NodePattern{Properties: cypher.MapLiteral{}},
+			&cypher.RelationshipPattern{Variable: v("r"), Kinds: graph.Kinds{}, Direction: graph.DirectionOutbound, Properties: relProps},
+			&cypher.NodePattern{Kinds: make(graph.Kinds, 0, 3)})
+		spq.NewProjection(false).AddItem(cypher.NewProjectionItemWithExpr(cypher.NewMapLiteral()))
+		add("bare empty MapLiteral as node properties, empty relationship Properties.Map, return {}", rq)
+	}
+	{
+		m := cypher.NewMatch(false)
+		m.Pattern = make([]*cypher.PatternPart, 0, 4)
+		w := m.NewWhere()
+		x := v("x")
+		w.Add(x)
+		w.Remove(x)
+		add("Match{Pattern: make([]*PatternPart,0,4)} with an emptied Where", m)
+	}
+	{
+		m := cypher.NewMatch(true)
+		m.Pattern = append(make([]*cypher.PatternPart, 0, 4), cypher.NewPatternPart().AddPatternElements(&cypher.NodePattern{Variable: v("n")}))
+		w := m.NewWhere()
+		w.AddSlice(append(make([]cypher.Expression, 0, 8), v("a"), v("b")))
+		add("Match with one pattern part in a cap 4 slice, Where with 2 expressions in a cap 8 slice", m)
+	}
+	{
+		c := cypher.NewConjunction(v("a"), v("b"))
+		for c.Len() > 0 {
+			c.Remove(c.Get(0))
+		}
+		add("emptied Conjunction", c)
+		add("Disjunction without operands (nil list)", cypher.NewDisjunction())
+		x := cypher.NewExclusiveDisjunction()
+		x.AddSlice([]cypher.Expression{})
+		add("ExclusiveDisjunction after AddSlice(empty)", x)
+		d := cypher.NewDisjunction(make([]cypher.Expression, 0, 4)...)
+		add("Disjunction over an empty cap 4 slice", d)
+		add("Negation of an emptied Conjunction", cypher.NewNegation(cypher.NewParenthetical(c)))
+	}
+	{
+		p := cypher.NewProjection(true)
+		p.Items = make([]cypher.Expression, 0, 2)
+		p.Order = &cypher.Order{Items: []*cypher.SortItem{}}
+		add("Projection{Items: make(0,2), Order{Items: empty}}", &cypher.Return{Projection: p})
+		with := cypher.NewWith()
+		with.Projection = cypher.NewProjection(false)
+		with.Projection.Items = []cypher.Expression{}
+		with.Where = cypher.NewWhere()
+		add("With{Projection{Items: empty}, Where: nil list}", with)
+	}
+	{
+		f := cypher.NewSimpleFunctionInvocation("f", []cypher.Expression{}...)
+		f.Namespace = []string{}
+		add("FunctionInvocation{Arguments: empty, Namespace: empty}", f)
+		g := cypher.NewSimpleFunctionInvocation("g")
+		add("FunctionInvocation without arguments (nil)", g)
+		k := cypher.NewSimpleFunctionInvocation("h", cypher.NewMapLiteral(), cypher.NewListLiteral())
+		k.Namespace = append(make([]string, 0, 4), "ns")
+		add("FunctionInvocation({}, []) with a cap 4 namespace", k)
+	}
+	{
+		spq := cypher.NewSinglePartQuery()
+		spq.ReadingClauses = []*cypher.ReadingClause{}
+		spq.UpdatingClauses = []cypher.Expression{}
+		add("SinglePartQuery with empty clause lists", &cypher.RegularQuery{SingleQuery: &cypher.SingleQuery{SinglePartQuery: spq}})
+		mpq := cypher.NewMultiPartQuery()
+		mpq.Parts = []*cypher.MultiPartQueryPart{}
+		add("MultiPartQuery{Parts: empty}", &cypher.RegularQuery{SingleQuery: &cypher.SingleQuery{MultiPartQuery: mpq}})
+		mpq2 := cypher.NewMultiPartQuery()
+		mpq2.AppendPart()
+		mpq2.CurrentPart().ReadingClauses = make([]*cypher.ReadingClause, 0, 2)
+		mpq2.CurrentPart().UpdatingClauses = []*cypher.UpdatingClause{}
+		mpq2.SinglePartQuery = cypher.NewSinglePartQuery()
+		add("MultiPartQueryPart with empty clause lists", &cypher.RegularQuery{SingleQuery: &cypher.SingleQuery{MultiPartQuery: mpq2}})
+	}
+	{
+		spq := cypher.NewSinglePartQuery()
+		spq.AddUpdatingClause(cypher.NewUpdatingClause(cypher.NewSet([]*cypher.SetItem{})))
+		spq.AddUpdatingClause(cypher.NewUpdatingClause(cypher.NewRemove([]*cypher.RemoveItem{})))
+		spq.AddUpdatingClause(cypher.NewUpdatingClause(cypher.NewDelete(true, []cypher.Expression{})))
+		cr := cypher.NewCreate()
+		cr.Pattern = make([]*cypher.PatternPart, 0, 1)
+		spq.AddUpdatingClause(cypher.NewUpdatingClause(cr))
+		spq.AddUpdatingClause(cypher.NewUpdatingClause(&cypher.Merge{PatternPart: &cypher.PatternPart{PatternElements: []*cypher.PatternElement{}}, MergeActions: []*cypher.MergeAction{}}))
+		spq.AddUpdatingClause(cypher.NewUpdatingClause(&cypher.Merge{PatternPart: cypher.NewPatternPart(), MergeActions: []*cypher.MergeAction{{OnCreate: true, Set: cypher.NewSet(nil)}}}))
+		add("updating clauses with empty item lists", &cypher.RegularQuery{SingleQuery: &cypher.SingleQuery{SinglePartQuery: spq}})
+	}
+	{
+		add("Comparison{Partials: empty}", &cypher.Comparison{Left: v("a"), Partials: []*cypher.PartialComparison{}})
+		add("ArithmeticExpression{Partials: empty cap 2}", &cypher.ArithmeticExpression{Left: v("a"), Partials: make([]*cypher.PartialArithmeticExpression, 0, 2)})
+		add("PatternPredicate without elements", cypher.NewPatternPredicate())
+		add("PatternPredicate{PatternElements: empty}", &cypher.PatternPredicate{PatternElements: []*cypher.PatternElement{}})
+		add("KindMatcher{Kinds: empty}", cypher.NewKindMatcher(v("n"), graph.Kinds{}, false))
+		add("KindMatcher{Kinds: nil}", cypher.NewKindMatcher(v("n"), nil, true))
+		add("RemoveItem by an empty kind matcher", cypher.RemoveKindsByMatcher(cypher.NewKindMatcher(v("n"), graph.Kinds{}, false)))
+	}
+	{
+		add("empty list literal", cypher.NewListLiteral())
+		add("nil list literal", new(cypher.ListLiteral))
+		l := cypher.NewStringListLiteral([]string{"a", "b"})
+		*l = (*l)[:0]
+		add("emptied list literal (capacity kept)", l)
+		l2 := cypher.NewListLiteral()
+		*l2 = append(make(cypher.ListLiteral, 0, 8), cypher.NewMapLiteral(), cypher.NewListLiteral(), cypher.NewLiteral(1, false))
+		add("list literal [{}, [], 1] with spare capacity", l2)
+		add("empty map literal root", cypher.NewMapLiteral())
+		add("nil map literal root", cypher.MapLiteral(nil))
+		add("map literal {a: {}, b: []}", cypher.MapLiteral{"a": cypher.MapLiteral{}, "b": cypher.NewListLiteral()})
+		add("empty kinds root", graph.Kinds{})
+		props := cypher.NewProperties()
+		add("Properties with neither map nor parameter", props)
+		props2 := cypher.NewProperties()
+		props2.Map = cypher.MapLiteral{}
+		add("Properties{Map: empty non-nil}", props2)
+	}
+	return out
+}
+
+// ---------------------------------------------------------------------------------------------------------------
+// class 3: the cancellation handler contract
+
+func noError() error { return nil }
+
+func handlerContract[N any](h *harness, w walker[N], name string, root N) {
+	full, err, pv := runLog(w, root, 0, nil)
+	if pv != nil {
+		h.deviate("walk_panic", "walk.%s panicked (%v) for %s", w.name, pv, name)
+		return
+	}
+	if err != nil {
+		return // reported by the other checks (cypher) / filtered before (SQL)
+	}
+	n := len(full.events)
+	// the Exit that closes the node a callback was for
+	closeIdx, ownerE, exitOf := make([]int, n), make([]int, n), make([]int, n)
+	var stack []int
+	for i, e := range full.events {
+		switch e.kind {
+		case 'E':
+			stack = append(stack, i)
+			ownerE[i] = i
+		case 'V', 'X':
+			if len(stack) == 0 {
+				h.deviate("handler_nesting", "walk.%s: %s outside of any Enter for %s", w.name, e, name)
+				return
+			}
+			top := stack[len(stack)-1]
+			if o := full.events[top]; o.t != e.t || o.p != e.p || o.s != e.s {
+				h.deviate("handler_nesting", "walk.%s: %s does not match the innermost %s for %s", w.name, e, o, name)
+				return
+			}
+			ownerE[i] = top
+			if e.kind == 'X' {
+				exitOf[top] = i
+				stack = stack[:len(stack)-1]
+			}
+		}
+	}
+	if len(stack) != 0 {
+		h.deviate("handler_nesting", "walk.%s: %d Enter without Exit in an undisturbed walk for %s", w.name, len(stack), name)
+		return
+	}
+	for i := range closeIdx {
+		closeIdx[i] = exitOf[ownerE[i]]
+	}
+	check := func(class, what string, l *evLog[N], err error, pv any, want []ev, wantErr error, anyErr bool) {
+		switch {
+		case pv != nil:
+			h.deviate("walk_panic", "walk.%s panicked (%v) with %s for %s", w.name, pv, what, name)
+		case wantErr != nil && !errors.Is(err, wantErr):
+			h.deviate(class, "walk.%s returned %v with %s for %s", w.name, err, what, name)
+		case anyErr && err == nil:
+			h.deviate(class, "walk.%s returned no error with %s for %s", w.name, what, name)
+		case wantErr == nil && !anyErr && err != nil:
+			h.deviate(class, "walk.%s returned %v with %s for %s", w.name, err, what, name)
+		default:
+			if at := sameEvents(l.events, want, true); at >= 0 {
+				h.deviate(class, "walk.%s with %s for %s: %s", w.name, what, name, describeDiff(l.events, want, at))
+			}
+		}
+	}
+	// SetError(nil) everywhere does not stop anything
+	h.count("handler")
+	l, err, pv := runLog(w, root, -1, func(vh walk.VisitorHandler) { vh.SetError(noError()) })
+	check("handler_seterror_nil", "SetError(nil) at every position", l, err, pv, full.events, nil, false)
+	if l != nil && l.Error() != nil {
+		h.deviate("handler_seterror_nil", "walk.%s: Error() is %v after SetError(nil) only, for %s", w.name, l.Error(), name)
+	}
+	for k := 1; k <= n && k <= h.posCap; k++ {
+		at := fmt.Sprintf("position %d of %d (%s)", k, n, full.events[k-1])
+		h.count("handler")
+		stop := fmt.Errorf("verif stop %d", k)
+		l, err, pv = runLog(w, root, k, func(vh walk.VisitorHandler) { vh.SetError(stop) })
+		check("handler_seterror", "SetError(e) at "+at, l, err, pv, full.events[:k], stop, false)
+
+		h.count("handler")
+		l, err, pv = runLog(w, root, k, func(vh walk.VisitorHandler) { vh.SetDone() })
+		check("handler_setdone", "SetDone at "+at, l, err, pv, full.events[:k], nil, false)
+
+		h.count("handler")
+		want := full.events
+		if c := closeIdx[k-1]; c > k-1 {
+			want = append(append([]ev{}, full.events[:k]...), full.events[c:]...)
+		}
+		l, err, pv = runLog(w, root, k, func(vh walk.VisitorHandler) { vh.Consume() })
+		check("handler_consume", "Consume at "+at, l, err, pv, want, nil, false)
+
+		if h.thorough {
+			h.count("handler")
+			l, err, pv = runLog(w, root, k, func(vh walk.VisitorHandler) { vh.SetErrorf("verif stop %d", k) })
+			check("handler_seterror", "SetErrorf at "+at, l, err, pv, full.events[:k], nil, true)
+			h.count("handler")
+			l, err, pv = runLog(w, root, k, func(vh walk.VisitorHandler) { vh.SetError(noError()) })
+			check("handler_seterror_nil", "SetError(nil) at "+at, l, err, pv, full.events, nil, false)
+		}
+	}
+}
+
+type verifKindMapper struct{ ids map[string]int16 }
+
+func (k *verifKindMapper) MapKinds(_ context.Context, kinds graph.Kinds) ([]int16, error) {
+	out := make([]int16, 0, len(kinds))
+	for _, kind := range kinds {
+		id, ok := k.ids[kind.String()]
+		if !ok {
+			id = int16(len(k.ids) + 1)
+			k.ids[kind.String()] = id
+		}
+		out = append(out, id)
+	}
+	return out, nil
+}
+
+func (k *verifKindMapper) AssertKinds(ctx context.Context, kinds graph.Kinds) ([]int16, error) {
+	return k.MapKinds(ctx, kinds)
+}
+
+func translateSafely(query *cypher.RegularQuery) (root pgsql.SyntaxNode, err error) {
+	defer func() {
+		if r := recover(); r != nil {
+			err = fmt.Errorf("translator panicked: %v", r)
+		}
+	}()
+	result, err := translate.Translate(context.Background(), query, &verifKindMapper{ids: map[string]int16{}}, nil, 0)
+	if err != nil {
+		return nil, err
+	}
+	return result.Statement, nil
+}
+
+// ---------------------------------------------------------------------------------------------------------------
+// class 2: typed-nil roots and typed-nil branches
+
+// removeChild: the events of an undisturbed walk without the block of the child entered at index i0, and without
+// the parent's Visit that separated it from a sibling
+func removeChild(full []ev, i0 int) []ev {
+	depth, i1 := 0, -1
+	for i := i0; i < len(full); i++ {
+		if full[i].kind == 'E' {
+			depth++
+		} else if full[i].kind == 'X' {
+			depth--
+			if depth == 0 {
+				i1 = i
+				break
+			}
+		}
+	}
+	if i1 < 0 {
+		return nil
+	}
+	lo, hi := i0, i1+1
+	if lo > 0 && full[lo-1].kind == 'V' {
+		lo--
+	} else if hi < len(full) && full[hi].kind == 'V' {
+		hi++
+	}
+	return append(append([]ev{}, full[:lo]...), full[hi:]...)
+}
+
+func enterIndex(full []ev, p uintptr) int {
+	found := -1
+	for i, e := range full {
+		if e.kind == 'E' && e.p == p && p != 0 {
+			if found >= 0 {
+				return -2 // entered more than once: no unique block
+			}
+			found = i
+		}
+	}
+	return found
+}
+
+func occupantPointer(v reflect.Value) uintptr {
+	for v.IsValid() && v.Kind() == reflect.Interface && !v.IsNil() {
+		v = v.Elem()
+	}
+	if v.IsValid() && v.Kind() == reflect.Pointer && !v.IsNil() {
+		return v.Pointer()
+	}
+	return 0
+}
+
+func (h *harness) typedNilRoots(types []reflect.Type) {
+	for _, t := range types {
+		for _, w := range cypherWalkers {
+			h.count("typed_nil")
+			l, err, pv := runLog(w, cypher.SyntaxNode(reflect.Zero(t).Interface()), 0, nil)
+			switch {
+			case pv != nil:
+				h.deviate("typed_nil_panic", "walk.%s panicked (%v) on the typed-nil root (%s)(nil)", w.name, pv, t)
+			case err == nil:
+				h.deviate("typed_nil_root", "walk.%s accepted the typed-nil root (%s)(nil) (%d notifications)", w.name, t, len(l.events))
+			case len(l.events) > 0:
+				h.deviate("typed_nil_root", "walk.%s notified the visitor %d times (%s first) for the typed-nil root (%s)(nil)", w.name, len(l.events), l.events[0], t)
+			}
+		}
+	}
+}
+
+func (h *harness) typedNilBranches(f fixture, types []reflect.Type, rotate *int) {
+	work, pv := safeCopy(f.root)
+	if pv != nil {
+		return // reported by class 1
+	}
+	fulls := make([]*evLog[cypher.SyntaxNode], len(cypherWalkers))
+	for i, w := range cypherWalkers {
+		l, err, pv := runLog(w, work, 0, nil)
+		if err != nil || pv != nil {
+			return // reported by the other checks
+		}
+		fulls[i] = l
+	}
+	before := dump(work)
+	for _, s := range collectSlots(work).refs {
+		st := s.typ()
+		if st.Kind() == reflect.Interface && st.NumMethod() != 0 {
+			continue // not a branch of the model (e.g. the graph.Kind entries of a kind list are opaque values)
+		}
+		old := s.get()
+		occ := occupantPointer(old)
+		type candidate struct {
+			v     reflect.Value
+			label string
+		}
+		var cands []candidate
+		switch st.Kind() {
+		case reflect.Pointer:
+			if h.types[st] && !old.IsNil() {
+				cands = append(cands, candidate{reflect.Zero(st), "(" + st.String() + ")(nil)"})
+			}
+		case reflect.Interface:
+			seen := map[reflect.Type]bool{}
+			addType := func(t reflect.Type) {
+				if !seen[t] && t.AssignableTo(st) {
+					seen[t] = true
+					cands = append(cands, candidate{reflect.Zero(t), "(" + t.String() + ")(nil)"})
+				}
+			}
+			if !old.IsNil() && old.Elem().Kind() == reflect.Pointer && h.types[old.Elem().Type()] {
+				addType(old.Elem().Type())
+			}
+			if h.thorough {
+				for _, t := range types {
+					addType(t)
+				}
+			} else if len(types) > 0 {
+				addType(types[*rotate%len(types)])
+				*rotate++
+			}
+			if s.inSlice && !old.IsNil() {
+				cands = append(cands, candidate{reflect.Zero(st), "untyped nil"})
+			}
+		}
+		for _, cand := range cands {
+			// the reference for an interface typed single field: the same model with that field absent
+			var absent [2]*evLog[cypher.SyntaxNode]
+			singleIface := st.Kind() == reflect.Interface && !s.inCollection()
+			if singleIface {
+				s.set(reflect.Zero(st))
+				for i, w := range cypherWalkers {
+					if l, err, pv := runLog(w, work, 0, nil); err == nil && pv == nil {
+						absent[i] = l
+					}
+				}
+			}
+			s.set(cand.v)
+			for i, w := range cypherWalkers {
+				h.count("typed_nil")
+				full := fulls[i].events
+				l, err, pv := runLog(w, work, 0, nil)
+				what := fmt.Sprintf("%s := %s in (a copy of) %s", s.path, cand.label, f.name)
+				if s.owner != "" {
+					what = s.owner + " at " + what
+				}
+				switch {
+				case pv != nil:
+					h.deviate("typed_nil_panic", "walk.%s panicked (%v) with %s", w.name, pv, what)
+				case l.nilSeen > 0:
+					h.deviate("typed_nil_visited", "walk.%s handed a nil node to the visitor with %s", w.name, what)
+				case s.inCollection():
+					// an entry of a branch collection: reported
+					visited := enterIndex(full, occ) >= 0
+					if err == nil && (w.name == structuralWalker.name || visited) {
+						h.deviate("typed_nil_branch", "walk.%s skipped the nil entry instead of reporting it: %s", w.name, what)
+					} else if err == nil {
+						if at := sameEvents(l.events, full, true); at >= 0 {
+							h.deviate("typed_nil_branch", "walk.%s neither reports nor ignores %s: %s", w.name, what, describeDiff(l.events, full, at))
+						}
+					}
+				case st.Kind() == reflect.Pointer:
+					// an optional child that is absent: skipped, the rest of the walk is unaffected
+					if err != nil {
+						h.deviate("typed_nil_optional_child", "walk.%s fails (%v) on an absent optional child: %s", w.name, err, what)
+						break
+					}
+					want := full
+					if i0 := enterIndex(full, occ); i0 == -2 {
+						break
+					} else if i0 >= 0 {
+						want = removeChild(full, i0)
+					}
+					if at := sameEvents(l.events, want, true); at >= 0 {
+						h.deviate("typed_nil_optional_child", "walk.%s with %s: %s", w.name, what, describeDiff(l.events, want, at))
+					}
+				default:
+					// typed nil in an interface typed single field: an error, or exactly the walk with the field absent
+					outcome := "error"
+					if err == nil {
+						if absent[i] == nil {
+							h.deviate("typed_nil_iface_field", "walk.%s accepts %s but fails when that field is absent", w.name, what)
+							break
+						}
+						if at := sameEvents(l.events, absent[i].events, true); at >= 0 {
+							h.deviate("typed_nil_iface_field", "walk.%s neither reports nor treats as absent %s: %s", w.name, what, describeDiff(l.events, absent[i].events, at))
+							break
+						}
+						outcome = "skipped"
+						if sameEvents(absent[i].events, full, true) < 0 {
+							outcome = "not walked"
+						}
+					}
+					h.ifaceOut[outcome]++
+					if outcome == "skipped" {
+						h.ifaceSkipped["walk."+w.name+" "+s.owner]++
+					}
+				}
+			}
+			s.set(old)
+		}
+	}
+	if dump(work) != before {
+		h.fail("harness error: working copy of %s not restored after the typed-nil placements", f.name)
+	}
+}
+
+// ---------------------------------------------------------------------------------------------------------------
+
 func TestVerifBoundedWalk(t *testing.T) {
+	h := &harness{known: map[string]bool{}, hits: map[string]int{}, classCases: map[string]int{}, types: map[reflect.Type]bool{}, ifaceOut: map[string]int{}, ifaceSkipped: map[string]int{}}
+	bound := os.Getenv("VERIF_BOUND")
+	if bound == "" {
+		bound = "1"
+	}
+	if n, err := strconv.Atoi(bound); err == nil && n >= 2 {
+		h.thorough = true
+	}
+	h.stopCap, h.posCap = 40, 96
+	if h.thorough {
+		h.stopCap, h.posCap = 1<<30, 1<<30
+	}
+	for _, class := range strings.Split(os.Getenv("VERIF_KNOWN"), "|") {
+		if class = strings.TrimSpace(class); class != "" {
+			h.known[class] = true
+		}
+	}
+	seed, _ := strconv.ParseInt(os.Getenv("VERIF_SEED"), 10, 64)
+
 	var queries []string
 	for _, fixture := range []string{test.PositiveTestCases, test.MutationTestCases} {
 		for _, testCase := range test.LoadFixture(t, fixture).RunnableCases() {
@@ -137,24 +1431,60 @@ func TestVerifBoundedWalk(t *testing.T) {
 			}
 		}
 	}
-	var failures []string
-	fail := func(format string, args ...any) {
-		if len(failures) < 5 {
-			failures = append(failures, fmt.Sprintf(format, args...))
-		}
-	}
-	models, cases := 0, 0
-	for _, q := range queries {
+	fixtureQueries := len(queries)
+	queries = append(queries, emptyCollectionQueries()...)
+	fail := h.fail
+
+	// the fixtures: parsed queries, then models built through the model API
+	var fixtures []fixture
+	var sqlRoots []fixture2
+	sqlUnwalkable, sqlUntranslatable := 0, 0
+	models := 0
+	for i, q := range queries {
 		model, err := frontend.ParseCypher(frontend.NewContext(), q)
 		if err != nil {
+			if i >= fixtureQueries {
+				fail("harness error: %q does not parse: %v", q, err)
+			}
 			continue
 		}
-		models++
+		if i < fixtureQueries {
+			models++
+		}
+		fixtures = append(fixtures, fixture{name: strconv.Quote(q), root: model})
+		// SQL model of the query, from a separate parse (the translator may rewrite its input)
+		if again, err := frontend.ParseCypher(frontend.NewContext(), q); err == nil {
+			if sqlRoot, err := translateSafely(again); err != nil {
+				sqlUntranslatable++
+			} else if _, err, pv := runLog(pgsqlWalker, sqlRoot, 0, nil); err != nil || pv != nil {
+				sqlUnwalkable++
+			} else {
+				sqlRoots = append(sqlRoots, fixture2{name: "SQL translation of " + strconv.Quote(q), root: sqlRoot})
+			}
+		}
+	}
+	parsed := len(fixtures)
+	fixtures = append(fixtures, builtFixtures()...)
+	order := make([]int, len(fixtures))
+	for i := range order {
+		order[i] = i
+	}
+	if seed != 0 {
+		rand.New(rand.NewSource(seed)).Shuffle(len(order), func(i, j int) { order[i], order[j] = order[j], order[i] })
+	}
+
+	for _, fi := range order {
+		f := fixtures[fi]
+		model, q := f.root, f.name
 		// deep copy: equal and disjoint
-		cases++
-		cp := cypher.Copy(model)
+		h.count("base")
+		cp, pv := safeCopy(model)
+		if pv != nil {
+			fail("Copy panicked (%v) for %s", pv, q)
+			continue
+		}
 		if !reflect.DeepEqual(cp, model) {
-			fail("Copy is not structurally equal for %q", q)
+			fail("Copy is not structurally equal for %s", q)
 		}
 		a, b := map[uintptr]int{}, map[uintptr]int{}
 		sa, sb := map[uintptr]bool{}, map[uintptr]bool{}
@@ -162,60 +1492,98 @@ func TestVerifBoundedWalk(t *testing.T) {
 		reflectNodes(reflect.ValueOf(cp), b, sb)
 		for p := range sa {
 			if sb[p] {
-				fail("Copy shares a pointer/slice/map with the original for %q", q)
+				fail("Copy shares a pointer/slice/map with the original for %s", q)
 				break
 			}
 		}
 		// structural walk: every modelled node exactly once, nested
-		cases++
+		h.count("base")
 		rec := newRecorder(0)
+		rec.types = h.types
 		if err := walk.CypherStructural(model, rec); err != nil {
-			fail("structural walk error %v for %q", err, q)
+			fail("structural walk error %v for %s", err, q)
 		}
 		if len(rec.open) != 0 || len(rec.bad) > 0 {
-			fail("structural walk not properly nested (%v) for %q", rec.bad, q)
+			fail("structural walk not properly nested (%v) for %s", rec.bad, q)
 		}
 		for p, n := range a {
 			if rec.entered[p] != n {
-				fail("structural walk entered a node %d times, reflection finds it %d times, for %q", rec.entered[p], n, q)
+				fail("structural walk entered a node %d times, reflection finds it %d times, for %s", rec.entered[p], n, q)
 				break
 			}
 		}
 		for p := range rec.entered {
 			if _, ok := a[p]; !ok {
-				fail("structural walk entered a node reflection does not find for %q", q)
+				fail("structural walk entered a node reflection does not find for %s", q)
 				break
 			}
 		}
 		// semantic walk is a subset
-		cases++
+		h.count("base")
 		sem := newRecorder(0)
+		sem.types = h.types
 		if err := walk.Cypher(model, sem); err != nil {
-			fail("semantic walk error %v for %q", err, q)
+			fail("semantic walk error %v for %s", err, q)
 		}
 		for p, n := range sem.entered {
 			if rec.entered[p] < n {
-				fail("semantic walk visits a node the structural walk does not, for %q", q)
+				fail("semantic walk visits a node the structural walk does not, for %s", q)
 				break
 			}
 		}
+		if sem.maps > rec.maps || sem.kinds > rec.kinds || sem.lists > rec.lists || sem.mapItems > rec.mapItems {
+			fail("semantic walk visits more map literals / kind lists / list literals / map items (%d/%d/%d/%d) than the structural walk (%d/%d/%d/%d), for %s",
+				sem.maps, sem.kinds, sem.lists, sem.mapItems, rec.maps, rec.kinds, rec.lists, rec.mapItems, q)
+		}
 		if len(sem.open) != 0 || len(sem.bad) > 0 {
-			fail("semantic walk not properly nested (%v) for %q", sem.bad, q)
+			fail("semantic walk not properly nested (%v) for %s", sem.bad, q)
 		}
 		// stop at every prefix
-		for k := 1; k <= rec.enters && k <= 40; k++ {
-			cases++
+		for k := 1; k <= rec.enters && k <= h.stopCap; k++ {
+			h.count("base")
 			st := newRecorder(k)
 			if err := walk.CypherStructural(model, st); err != nil {
-				fail("stopped walk returned error %v for %q", err, q)
+				fail("stopped walk returned error %v for %s", err, q)
 			}
 			if st.after > 0 || st.enters != k {
-				fail("visitor stopped at Enter %d still received %d notifications (%d enters) for %q", k, st.after, st.enters, q)
+				fail("visitor stopped at Enter %d still received %d notifications (%d enters) for %s", k, st.after, st.enters, q)
 			}
 		}
+		// pointer types of the fixture (for the typed-nil class)
+		for _, s := range collectSlots(model).refs {
+			if st := s.typ(); st.Kind() == reflect.Pointer && st.Elem().PkgPath() == cypherPkgPath {
+				h.types[st] = true
+			} else if old := s.get(); st.Kind() == reflect.Interface && !old.IsNil() && old.Elem().Kind() == reflect.Pointer && old.Elem().Type().Elem().PkgPath() == cypherPkgPath {
+				h.types[old.Elem().Type()] = true
+			}
+		}
+
+		// class 1
+		h.checkCopyAndWalk(q, model, true)
+		h.emptiedVariants(f)
+		// class 3
+		handlerContract(h, structuralWalker, q, model)
+		handlerContract(h, semanticWalker, q, model)
 	}
+	for _, sf := range sqlRoots {
+		handlerContract(h, pgsqlWalker, sf.name, sf.root)
+	}
+
+	// class 2 (needs the types of all fixtures)
+	types := make([]reflect.Type, 0, len(h.types))
+	for t := range h.types {
+		types = append(types, t)
+	}
+	sort.Slice(types, func(i, j int) bool { return types[i].String() < types[j].String() })
+	h.typedNilRoots(types)
+	for _, fi := range order {
+		// the rotation of the extra type depends on the fixture only, not on the order of the visit
+		rotate := fi * 7
+		h.typedNilBranches(fixtures[fi], types, &rotate)
+	}
+
 	// nil entries in branch slices are reported
-	cases++
+	h.count("base")
 	withNil := &cypher.RegularQuery{SingleQuery: &cypher.SingleQuery{SinglePartQuery: &cypher.SinglePartQuery{ReadingClauses: []*cypher.ReadingClause{nil}}}}
 	if err := walk.CypherStructural(withNil, newRecorder(0)); err == nil {
 		fail("a nil reading clause in the branch list was skipped instead of reported")
@@ -223,10 +1591,38 @@ func TestVerifBoundedWalk(t *testing.T) {
 	if err := walk.CypherStructural(nil, newRecorder(0)); err == nil {
 		fail("a nil root was accepted")
 	}
-	res := map[string]any{"name": "walk", "bound": fmt.Sprintf("%d parsed fixture queries, every stop position up to 40", models), "models": models, "cases": cases, "exhaustive": false, "failures": failures}
+	for _, w := range cypherWalkers {
+		if l, err, pv := runLog(w, nil, 0, nil); pv != nil || err == nil || len(l.events) > 0 {
+			h.deviate("typed_nil_root", "walk.%s on an untyped nil root: error %v, panic %v, %d notifications", w.name, err, pv, len(l.events))
+		}
+	}
+	if l, err, pv := runLog(pgsqlWalker, nil, 0, nil); pv != nil || err == nil || len(l.events) > 0 {
+		h.deviate("typed_nil_root", "walk.PgSQL on an untyped nil root: error %v, panic %v, %d notifications", err, pv, len(l.events))
+	}
+
+	failures := h.failures
+	if failures == nil {
+		failures = []string{}
+	}
+	caps := "every position"
+	if !h.thorough {
+		caps = fmt.Sprintf("stop positions up to %d, handler positions up to %d", h.stopCap, h.posCap)
+	}
+	res := map[string]any{"name": "walk",
+		"bound": fmt.Sprintf("%d parsed fixture queries, %d parsed empty-collection queries, %d models built through the API, every slice/map location of each emptied 3 ways; typed nil of %d pointer types as root and at every pointer/interface location; handler contract (SetError(nil)/SetError/SetDone/Consume) for Cypher, CypherStructural and PgSQL (%d translated queries); %s; VERIF_BOUND=%s",
+			models, parsed-models, len(fixtures)-parsed, len(types), len(sqlRoots), caps, bound),
+		"models": models, "cases": h.cases, "exhaustive": false, "failures": failures, "failure_count": h.nfail,
+		"class_cases": h.classCases, "known_deviation_hits": h.hits,
+		"typed_nil_types": len(types), "typed_nil_iface_field_outcomes": h.ifaceOut, "typed_nil_iface_fields_skipped": h.ifaceSkipped,
+		"pgsql_models": len(sqlRoots), "pgsql_not_translated": sqlUntranslatable, "pgsql_not_walkable": sqlUnwalkable}
 	out, _ := json.Marshal(res)
 	fmt.Println("BOUNDED-RESULT " + string(out))
 	if len(failures) > 0 {
 		t.Fail()
 	}
+}
+
+type fixture2 struct {
+	name string
+	root pgsql.SyntaxNode
 }
